@@ -16,12 +16,14 @@ def run(chk):
                        "toy 64-bit moduli", "SignedAccumulator.Accumulator memo is clear on received messages (it is not serialised)"]
     mc = "RevAuth.mc.thorough.cfg" if thorough else "RevAuth.mc.quick.cfg"
     r = vplib.tlc_mc("RevAuth", mc, timeout=3000)
-    chk.add_tlc(r, "RevAuth", mc, "AuthVerify, AuthEventList, AuthPrepend")
+    chk.add_tlc(r, "RevAuth", mc, "AuthVerify, AuthEventList, AuthEventListTwice, AuthPrepend, AuthPrependToMsg")
     r = vplib.tlc_mc("RevAuth", "RevAuth.hash.cfg", timeout=600)
     chk.add_tlc(r, "RevAuth", "RevAuth.hash.cfg", "HashEqIsEquality")
     r = vplib.tlc("RevAuth", "RevAuth.nonvacuous.cfg", timeout=600, allow_fail=True)
     if "NoAcceptAfterMutation" not in r.invariant_violated:
         raise vplib.Machinery("vacuity check failed: no mutated message is accepted in the model")
+    if thorough:
+        vplib.coverage_check(chk, "RevAuth", "RevAuth.mc.quick.cfg", timeout=1800)
     gen = "RevAuth.gen.thorough.cfg" if thorough else "RevAuth.gen.quick.cfg"
     if thorough:
         # MaxMut = 2: enumerate by simulation-free exhaustive emission would be ~400k messages; sample by seed
